@@ -264,7 +264,13 @@ type Puppet struct {
 type LogBuf struct {
 	mu    sync.Mutex
 	Lines []string
+	// OnLine, when set, is called with every line, on the goroutine that logs it and before Write returns (a slow log
+	// destination: whatever the node does between two statements around a log call can be made to take a while).
+	OnLine func(string)
 }
+
+// SetOnLine installs or removes the line hook.
+func (l *LogBuf) SetOnLine(f func(string)) { l.mu.Lock(); l.OnLine = f; l.mu.Unlock() }
 
 // Snapshot returns a copy of the captured log lines.
 func (l *LogBuf) Snapshot() []string {
@@ -278,7 +284,11 @@ func (l *LogBuf) Write(p []byte) (int, error) {
 	if len(l.Lines) < 4000 {
 		l.Lines = append(l.Lines, string(p))
 	}
+	h := l.OnLine
 	l.mu.Unlock()
+	if h != nil {
+		h(string(p))
+	}
 	return len(p), nil
 }
 
